@@ -22,12 +22,17 @@ def jobs(tier):
         def J(name, op, enforce, fns, extra=(), stub=True, **kw):
             js.append(Job(name='%s_%s' % (nm.lower(), name), shim='digest', contract='c14_digest.c', harness='h_%s_%s' % (nm.lower(), name), enforce=[enforce],
                           shim_defines=['DG=%d' % dg], defines=['OP_' + op, 'DG=%d' % dg] + list(extra), functions=fns, include_dirs=[os.path.join(VERIF, 'spec'), SPECDIR],
-                          resolve={'COMPFN': COMP[dg]}, replace_calls=[('COMPFN', 'uf_compress')] if stub else [], mode='assert' if stub else 'dfcc', **kw))
+                          resolve={'COMPFN': COMP[dg], 'PROCFN': r'tlx::%s::process\(void const\*, unsigned int\)' % nm}, replace_calls=[('COMPFN', 'uf_compress')] if stub else [], mode='assert' if stub else 'dfcc', **kw))
         J('init', 'init', 'c_init', [r'tlx::%s::%s\(\)' % (nm, nm)], stub=False, what='%s(): initial state equals the standard H0, empty buffer' % nm)
         blk = 128 if dg == 3 else 64
-        J('process', 'process', 'c_process', [r'tlx::%s::process\(void const\*, unsigned int\)' % nm], unwind=2 * blk + 12, timeout=1500,
-          label='bounded: size <= %d bytes (two blocks + 7), every curlen_, every offset' % (2 * blk + 7),
-          what='%s::process: blocks fed = consecutive slices of (buffer ++ data), tail buffered, length_ counts compressed bits [compress abstracted by a logging stub]' % nm)
+        # one job per buffered length curlen_ (symbolic curlen_ AND size: no back end finishes in 25 min); the quick tier
+        # takes the boundary values, the thorough tier every value 0..block-1
+        for cur in range(0, blk):
+            quick = cur in (1, blk - 1) and dg != 3
+            J('process_c%d' % cur, 'process', 'c_process', [r'tlx::%s::process\(void const\*, unsigned int\)' % nm], ['FIX_CUR=%d' % cur], unwind=2 * blk + 12, unwindset=(['{PROCFN}.1:6', '{PROCFN}.0:%d' % (blk + 2)] if dg != 2 else ['{PROCFN}.0:6']) + ['ir_memmove.0:%d' % (blk + 2), 'ir_memmove.1:%d' % (blk + 2), 'ir_memcpy.0:%d' % (blk + 2)], timeout=900,
+              tier='quick' if quick else 'thorough', cbmc_flags=['--no-standard-checks', '--pointer-check', '--bounds-check'],
+              label='bounded: size <= %d bytes (two blocks + 7), curlen_ = %d, every offset' % (2 * blk + 7, cur),
+              what='%s::process with %d buffered bytes: blocks fed = consecutive slices of (buffer ++ data), tail buffered, length_ counts compressed bits [compress abstracted by a logging stub]' % (nm, cur))
         J('finalize', 'finalize', 'c_finalize', [r'tlx::%s::finalize\(void\*\)' % nm], unwind=blk + 4, timeout=900,
           what='%s::finalize: exactly the standard padding for every curlen_ / length_, one or two blocks, output in the standard byte order' % nm)
         J('compress', 'compress', 'c_compress', [COMP[dg]], stub=False, unwind=82, backend='cvc5', timeout=3000, tier='thorough',
